@@ -780,6 +780,8 @@ func (env *Env) resolveType(name string) (types.Type, string) {
 		return types.Typ[types.Uint8], sInt
 	case "ref":
 		return nil, sInt
+	case "iface":
+		return nil, sIface
 	case "Seq":
 		return nil, "hv_Seq"
 	}
